@@ -92,6 +92,9 @@ def run_case(ck, desc):
     if kind == "facade":
         T, api, gg, gor = desc["oil"]
         sal = desc["salinity"]
+        if int(desc["Sw"] * 1000) % 3 == 0:
+            # Fluid(200, 35, 0.8, 650): the documented way of writing the parameters
+            T, api, gor, sal = int(round(T)), int(round(api)), int(round(gor)), int(round(sal))
         fl = Fluid(T, api, gg, gor, salinity=sal, water_saturation_initial=desc["Sw"])
         p = np.array(desc["p"])
         Tpc, ppc = desc["Tpc"], desc["ppc"]
@@ -130,7 +133,12 @@ def run_case(ck, desc):
 
     if kind == "table":
         comp_before = dict(comp)
-        tab = build_pvt_gas(comp, dry, maximum_pressure=desc["pmax"])
+        import pandas as pd
+
+        as_series = int(desc["pmax"]) % 2 == 1
+        arg = pd.Series(dict(comp, well="A-1")) if as_series else comp  # a row of a well table
+        pmax_arg = int(desc["pmax"]) if float(desc["pmax"]).is_integer() else desc["pmax"]
+        tab = build_pvt_gas(arg, dry, maximum_pressure=pmax_arg)
         if comp != comp_before:
             ck.violation("table.inputs-unmodified", {}, desc)
         P = tab["pressure"].to_numpy()
